@@ -26,4 +26,5 @@ CONSTANTS
   BucketOps = FALSE
   PreBuckets <- PreA
   PreCache <- NoKeys
+  PruneLast <- MC_PruneLast
 INVARIANTS TypeOK Disjoint Atomicity Isolation PrefixDurability ReopenOK
